@@ -13,6 +13,7 @@ from typing import Any
 from vlib import core, refmap
 
 PROP = "C13"
+EOLS = ["\n", "", "\n\n", "\n \t\n", "\r\n"]
 
 
 # ----------------------------------------------------------------------------- worker side
@@ -115,8 +116,12 @@ def _run_one(case: dict) -> dict:
         elif mode == "per-line":
             p = os.path.join(wd, "lines.json")
             with open(p, "w", encoding="utf-8") as fh:
-                for doc in docs:
-                    fh.write(json.dumps(doc, ensure_ascii=case["ascii"]) + "\n")
+                # line terminators / file endings of a one-JSON-per-line file: final newline
+                # or none, a trailing blank or whitespace-only line, CRLF
+                eol = case.get("eol", "\n")
+                nl = "\r\n" if eol == "\r\n" else "\n"
+                body = nl.join(json.dumps(doc, ensure_ascii=case["ascii"]) for doc in docs)
+                fh.write(body + eol)
             cfg["filepath"] = p
             cfg["json_per_line"] = True
         else:
@@ -199,7 +204,8 @@ def workload(tier: str, seed: int) -> tuple[list[dict], dict]:
         if refmap.kv_sibling_unfollowable(docs, mp):
             tags.add("kv-sibling-unfollowable")
         cases.append({"kind": "random", "name": f"m{i}", "mapping": mp, "docs": docs, "spec": spec,
-                      "twin": twin, "mode": mode, "ascii": rng.random() < 0.5, "indent": rng.choice([None, None, 2]) if mode != "per-line"
+                      "twin": twin, "mode": mode, "eol": EOLS[i % len(EOLS)],
+                      "ascii": rng.random() < 0.5, "indent": rng.choice([None, None, 2]) if mode != "per-line"
                       else None, "tags": sorted(tags), "work_dir": wd})
         stats[mode] += 1
         stats["hostile" if hostile else "plain"] += 1
